@@ -19,8 +19,11 @@ use crate::world::*;
 
 pub const MAGIC: [u8; 4] = [0xd1, 0xd9, 0x3a, 0xaf];
 pub const GZ: [u8; 10] = [31, 139, 8, 0, 0, 0, 0, 0, 0, 255];
-pub const KINDS: &[&str] = &["torn_write", "bit_rot", "stale_tail", "lost_write", "marker_substitution", "string_substitution", "json_mutation", "zeroed_range", "duplicated_range", "multi_byte", "freeform"];
-pub const EXHAUSTIVE_KINDS: &[&str] = &["torn_write", "bit_rot", "stale_tail", "lost_write", "marker_substitution", "string_substitution", "json_mutation"];
+pub const KINDS: &[&str] = &["torn_write", "bit_rot", "stale_tail", "lost_write", "marker_substitution", "string_substitution", "json_mutation", "value_substitution", "zeroed_range", "duplicated_range", "multi_byte", "freeform"];
+pub const EXHAUSTIVE_KINDS: &[&str] = &["torn_write", "bit_rot", "stale_tail", "lost_write", "marker_substitution", "string_substitution", "json_mutation", "value_substitution"];
+/// Whole-value replacements (the value, with everything nested in it, is cut out and one of these
+/// single-byte msgpack values is put in its place): nil, false, 0, empty array, empty map, empty string.
+pub const VALUE_SUBST: &[u8] = &[0xc0, 0xc2, 0x00, 0x90, 0x80, 0xa0];
 /// Replacement contents for every stored string (well-formed msgpack, hostile or degenerate content).
 pub const STRING_DICT: &[&str] = &[
     "", "a", "/", "//", "/a/", "*", "^", "|", "||", "{}", "[]", "null", "{\"selector\":[]}", "{\"selector\":[],\"action\":null}",
@@ -46,6 +49,7 @@ pub fn buffer_profile() -> Profile {
         extra: 0,
         tiny_patterns: true,
         non_ascii_urls: false,
+        hostname_wildcards: true,
     }
 }
 
@@ -158,6 +162,71 @@ pub fn structural_offsets(buf: &[u8]) -> Vec<usize> {
             pending.push(children);
         }
     }
+    out
+}
+
+/// (start, end) of every msgpack value in the payload, nested values included.
+pub fn value_extents(buf: &[u8]) -> Vec<(usize, usize)> {
+    fn be(b: &[u8], p: usize, n: usize) -> Option<usize> {
+        if p + n > b.len() {
+            return None;
+        }
+        let mut v = 0usize;
+        for i in 0..n {
+            v = (v << 8) | b[p + i] as usize;
+        }
+        Some(v)
+    }
+    fn skip(b: &[u8], p: usize, depth: usize, out: &mut Vec<(usize, usize)>) -> Option<usize> {
+        if p >= b.len() || depth > 64 {
+            return None;
+        }
+        let m = b[p];
+        let q = p + 1;
+        let (mut end, children) = match m {
+            0x00..=0x7f | 0xe0..=0xff | 0xc0 | 0xc1 | 0xc2 | 0xc3 => (q, 0usize),
+            0x80..=0x8f => (q, 2 * (m & 0x0f) as usize),
+            0x90..=0x9f => (q, (m & 0x0f) as usize),
+            0xa0..=0xbf => (q + (m & 0x1f) as usize, 0),
+            0xc4 | 0xd9 => (q + 1 + be(b, q, 1)?, 0),
+            0xc5 | 0xda => (q + 2 + be(b, q, 2)?, 0),
+            0xc6 | 0xdb => (q.checked_add(4)?.checked_add(be(b, q, 4)?)?, 0),
+            0xc7 => (q + 2 + be(b, q, 1)?, 0),
+            0xc8 => (q + 3 + be(b, q, 2)?, 0),
+            0xc9 => (q.checked_add(5)?.checked_add(be(b, q, 4)?)?, 0),
+            0xca => (q + 4, 0),
+            0xcb => (q + 8, 0),
+            0xcc | 0xd0 => (q + 1, 0),
+            0xcd | 0xd1 => (q + 2, 0),
+            0xce | 0xd2 => (q + 4, 0),
+            0xcf | 0xd3 => (q + 8, 0),
+            0xd4 => (q + 2, 0),
+            0xd5 => (q + 3, 0),
+            0xd6 => (q + 5, 0),
+            0xd7 => (q + 9, 0),
+            0xd8 => (q + 17, 0),
+            0xdc => (q + 2, be(b, q, 2)?),
+            0xdd => (q + 4, be(b, q, 4)?),
+            0xde => (q + 2, 2 * be(b, q, 2)?),
+            0xdf => (q + 4, 2usize.checked_mul(be(b, q, 4)?)?),
+        };
+        if children > b.len() {
+            return None;
+        }
+        for _ in 0..children {
+            end = skip(b, end, depth + 1, out)?;
+        }
+        if end > b.len() {
+            return None;
+        }
+        out.push((p, end));
+        Some(end)
+    }
+    let mut out = vec![];
+    if buf.len() > 5 {
+        let _ = skip(buf, 5, 0, &mut out);
+    }
+    out.sort();
     out
 }
 
@@ -291,6 +360,7 @@ pub struct FaultSpace {
     pub b: Vec<u8>,
     pub offsets: Vec<usize>,
     pub strings: Vec<(usize, usize, usize)>,
+    pub extents: Vec<(usize, usize)>,
     /// (index into `strings`, mutated JSON text)
     pub json_cases: Vec<(usize, String)>,
     pub seed: u64,
@@ -312,7 +382,8 @@ impl FaultSpace {
                 }
             }
         }
-        FaultSpace { a, b, offsets, strings, json_cases, seed, n_sampled }
+        let extents = value_extents(&a);
+        FaultSpace { a, b, offsets, strings, extents, json_cases, seed, n_sampled }
     }
     pub fn count(&self, kind: &str) -> u64 {
         match kind {
@@ -323,6 +394,7 @@ impl FaultSpace {
             "marker_substitution" => (self.offsets.len() * MARKERS.len()) as u64,
             "string_substitution" => (self.strings.len() * STRING_DICT.len()) as u64,
             "json_mutation" => self.json_cases.len() as u64,
+            "value_substitution" => (self.extents.len() * VALUE_SUBST.len()) as u64,
             "zeroed_range" | "duplicated_range" | "multi_byte" => self.n_sampled,
             "freeform" => 24 + self.n_sampled / 4,
             _ => 0,
@@ -355,6 +427,13 @@ impl FaultSpace {
             "string_substitution" => {
                 let sv = self.strings[i / STRING_DICT.len()];
                 splice_string(a, sv, STRING_DICT[i % STRING_DICT.len()].as_bytes())
+            }
+            "value_substitution" => {
+                let (st, en) = self.extents[i / VALUE_SUBST.len()];
+                let mut v = a[..st].to_vec();
+                v.push(VALUE_SUBST[i % VALUE_SUBST.len()]);
+                v.extend_from_slice(&a[en..]);
+                v
             }
             "json_mutation" => {
                 let (si, t) = &self.json_cases[i];
